@@ -27,7 +27,7 @@ from dvc_data.index import DataIndex, DataIndexEntry, ObjectStorage  # noqa: E40
 from dvc_data.index.checkout import apply, compare  # noqa: E402
 
 FS = LocalFileSystem()
-NAMES = ["a", "b", "data", "ata", "x y", "ü", "a.dir", "z", "win\\style", "a\\b"]
+NAMES = ["a", "b", "data", "ata", "x y", "ü", "a.dir", "z", "win\\style", "a\\b", "cafe\u0301", "caf\u00e9", "a.b"]  # decomposed / composed twins are different paths
 CONTENTS = [b"", b"one", b"one", b"two\r\n", os.urandom(17), b"x" * 3000]
 
 
@@ -73,7 +73,8 @@ def run_one(rng, i):
         try:
             odb = cls(FS, os.path.join(tmp, "odb"), state=state) if state else cls(FS, os.path.join(tmp, "odb"))
             odb.cache_types = [link]
-            staging, meta, obj = build(odb, src + (os.sep if trailing else ""), FS, "md5")
+            upload = rng.random() < 0.25  # upload staging: every file is streamed to a temp name in the store and added under the digest of the stream
+            staging, meta, obj = build(odb, src + (os.sep if trailing else ""), FS, "md5", upload=upload)
             if not single_file and rng.random() < 0.35:
                 # other work on the same store between staging and transfer: ANOTHER directory holding copies of some of the
                 # files is staged, then edited or removed.  The first staging must keep referring to the first directory.
@@ -91,6 +92,14 @@ def run_one(rng, i):
                         for fn in fns:
                             open(os.path.join(d_, fn), "wb").write(b"edited after staging " + os.urandom(3))
             transfer(staging, odb, {obj.hash_info}, shallow=False)
+            for d_, _, fns in os.walk(odb.path):
+                for fn in fns:
+                    rel = os.path.relpath(os.path.join(d_, fn), odb.path).split(os.sep)
+                    if len(rel) == 2 and len(rel[0]) == 2:
+                        oid = "".join(rel)
+                        actual = hashlib.md5(open(os.path.join(d_, fn), "rb").read()).hexdigest()  # noqa: S324
+                        if actual != oid.removesuffix(".dir") and not probs:
+                            probs.append(f"after staging{' (upload)' if upload else ''} and transfer the store holds {oid} whose bytes hash to {actual}")
             if not single_file:
                 listing = {k: hi.value for k, _, hi in obj}
                 want = {k: hashlib.md5(d).hexdigest() for k, d in files.items()}  # noqa: S324
@@ -126,7 +135,7 @@ def run_one(rng, i):
         finally:
             if state is not None:
                 state.close()
-    return [{"cls": cls.__name__, "link": link, "state": with_state, "trailing_sep": trailing,
+    return [{"cls": cls.__name__, "link": link, "state": with_state, "trailing_sep": trailing, "upload": upload,
              "files": {"/".join(k): len(v) for k, v in files.items()}, "problems": probs[:3]}] if probs else []
 
 
@@ -138,7 +147,7 @@ def main():
         failures += run_one(rng, i)
     print(json.dumps({"evaluations": n, "distinct_nontrivial": n, "n_failures": len(failures), "failures": failures[:4],
                       "bound": f"{n} seeded trees: <= 7 files, depth <= 4, duplicates / empty / CRLF / non-ASCII names, single files; 2 store classes x 3 link "
-                               "types x state on/off; source path with/without trailing separator; in a third of the runs another directory with copies of some files is staged on the same store and then edited/removed before the transfer"}))
+                               "types x state on/off; source path with/without trailing separator; a quarter staged through the upload path; the store audited (name = digest) after the transfer; in a third of the runs another directory with copies of some files is staged on the same store and then edited/removed before the transfer"}))
 
 
 if __name__ == "__main__":
